@@ -387,6 +387,11 @@ impl Task {
             )));
         }
         self.init(ctx)?;
+        if self.state().is_pending() && self.is_ready() {
+            // nothing will wake it up later: the siblings it waits for are already finished
+            self.set_state(TaskState::Running);
+            ctx.runtime.scher().emit_task_event(self)?;
+        }
         self.run(ctx)?;
         self.next(ctx)?;
         Ok(())
